@@ -47,6 +47,17 @@ type c17Type struct {
 	ops  []c17Op
 	// done releases resources of the instance after the execution (optional)
 	done func(inst any)
+	// eager: pending timers (a registry's poll tick) may fire at any schedule point, so the poller's
+	// body interleaves with the calls instead of waiting for quiescence
+	eager bool
+	// pb overrides the preemption bound (0 = the tier's)
+	pb int
+}
+
+// c17Stack is a limiter whose limit, strategy and partitions report to a started registry.
+type c17Stack struct {
+	l   *limiter.DefaultLimiter
+	reg core.MetricRegistry
 }
 
 var raceLogOff int64
@@ -126,7 +137,7 @@ func c17Scenario(ty c17Type, pb int) *mc.Scenario {
 	return &mc.Scenario{
 		Name:        "C17/" + ty.name,
 		Params:      fmt.Sprintf("%d calls, %d unordered pairs (incl. a call with itself), two threads on one shared instance", len(ty.ops), len(pairs)),
-		Cfg:         vrt.Config{MaxSteps: 4000, Horizon: int64(time.Minute)},
+		Cfg:         vrt.Config{MaxSteps: 4000, Horizon: int64(time.Minute), EagerClock: ty.eager},
 		MonitorOnce: true,
 		Body: func(x *mc.Exec) {
 			p := pairs[vrt.Choose(len(pairs))]
@@ -143,7 +154,8 @@ func c17Scenario(ty c17Type, pb int) *mc.Scenario {
 		Post: func(x *mc.Exec, r *vrt.Result) {
 			what, _ := x.Aux.(string)
 			x.Observe("%s", what)
-			if r.Stuck {
+			if r.Stuck && r.TimersBeyondHorizon == 0 {
+				// every goroutine blocked for good: the runtime aborts ("all goroutines are asleep")
 				x.Fail("deadlock/"+ty.name, "%s deadlocked: %v", what, r.StuckInfo)
 			}
 			for _, rep := range newRaceReports() {
@@ -473,6 +485,81 @@ func c17Types() []c17Type {
 			delete(ddClients, i.(*ddreg.MetricRegistry))
 		}
 	}})
+	// polling variants: the registry is started and holds a gauge, the clock is eager, so the poller's
+	// tick body runs concurrently with registration, sampling and Stop
+	pollOps := func() []c17Op {
+		o := regOps()
+		o = []c17Op{o[0], o[3], o[6]} // a tagged and an untagged sampler, RegisterGauge
+		return append(o, c17Op{"Stop", func(i any) { i.(core.MetricRegistry).Stop() }}, c17Op{"Start", func(i any) { i.(core.MetricRegistry).Start() }})
+	}
+	for _, base := range ts[len(ts)-2:] {
+		base := base
+		mkReg := base.mk
+		if strings.HasPrefix(base.name, "datadog") {
+			// one statsd client per process here: a client costs milliseconds to create and close
+			mkReg = func() any {
+				if sharedDD == nil {
+					client, err := dogstatsd.NewWithWriter(&memWriter{}, dogstatsd.WithoutTelemetry(), dogstatsd.WithoutClientSideAggregation())
+					if err != nil {
+						panic(err)
+					}
+					sharedDD = client
+				}
+				r, err := ddreg.NewMetricRegistryWithClient(sharedDD, "p", time.Second)
+				if err != nil {
+					panic(err)
+				}
+				return r
+			}
+		}
+		ts = append(ts, c17Type{name: base.name + "(polling)", eager: true, pb: 1, ops: pollOps(), mk: func() any {
+			r := mkReg().(core.MetricRegistry)
+			r.RegisterGauge("g0", func() (float64, bool) { return 2, true })
+			r.Start()
+			return r
+		}, done: func(i any) { i.(core.MetricRegistry).Stop() }})
+	}
+	// whole stacks reporting to a started go-metrics registry: the samplers of the limit, the strategy
+	// and the partitions run inside the calls while the poller reads the gauges they registered
+	for _, kind := range []string{"simple", "precise", "lookup", "predicate"} {
+		kind := kind
+		ts = append(ts, c17Type{name: "limiter.DefaultLimiter(" + kind + ")+gometrics(polling)", eager: true, pb: 1, mk: func() any {
+			r, err := gmreg.NewGoMetricsMetricRegistry(gometricslib.NewRegistry(), "", "p", time.Second)
+			if err != nil {
+				panic(err)
+			}
+			lim := limit.NewVegasLimitWithRegistry("t", 3, nil, 10, 1.0, nil, nil, nil, nil, nil, 30, nil, r)
+			l, err := limiter.NewDefaultLimiter(lim, 1, 1, 0, 10, newStrategy(kind, 3, r), limit.NoopLimitLogger{}, r)
+			if err != nil {
+				panic(err)
+			}
+			for k := 0; k < 10; k++ {
+				if tok, ok := l.Acquire(ctxFor("a")); ok {
+					tok.OnSuccess()
+				}
+			}
+			r.Start()
+			return &c17Stack{l, r}
+		}, done: func(i any) { i.(*c17Stack).reg.Stop() }, ops: []c17Op{
+			{"Acquire(a)+OnSuccess", func(i any) {
+				if l, ok := i.(*c17Stack).l.Acquire(ctxFor("a")); ok {
+					l.OnSuccess()
+				}
+			}},
+			{"Acquire(b)+OnDropped", func(i any) {
+				if l, ok := i.(*c17Stack).l.Acquire(ctxFor("b")); ok {
+					l.OnDropped()
+				}
+			}},
+			{"Acquire(unknown)+OnIgnore", func(i any) {
+				if l, ok := i.(*c17Stack).l.Acquire(ctxFor("zz")); ok {
+					l.OnIgnore()
+				}
+			}},
+			{"EstimatedLimit+String", func(i any) { st := i.(*c17Stack); st.l.EstimatedLimit(); _ = fmt.Sprint(st.l) }},
+			{"RegisterGauge", func(i any) { i.(*c17Stack).reg.RegisterGauge("late", func() (float64, bool) { return 1, true }) }},
+		}})
+	}
 	// warmed variants: the same calls from a non-initial state (past warm-up windows, after a drop)
 	var warmed []c17Type
 	for _, ty := range ts {
@@ -509,6 +596,9 @@ func c17Types() []c17Type {
 func c17Uncovered(ts []c17Type) []string {
 	var out []string
 	for _, ty := range ts {
+		if ty.eager {
+			continue // started registries need the scheduler; their calls are those of the plain variants
+		}
 		inst := ty.mk()
 		t := reflect.TypeOf(inst)
 		names := ""
@@ -540,7 +630,7 @@ func c17Triples(ty c17Type, pb int) *mc.Scenario {
 	return &mc.Scenario{
 		Name:        "C17/triples/" + ty.name,
 		Params:      fmt.Sprintf("%d calls, %d unordered triples, three threads on one shared instance", len(ty.ops), len(ts)),
-		Cfg:         vrt.Config{MaxSteps: 6000, Horizon: int64(time.Minute)},
+		Cfg:         vrt.Config{MaxSteps: 6000, Horizon: int64(time.Minute), EagerClock: ty.eager},
 		MonitorOnce: true,
 		Body: func(x *mc.Exec) {
 			p := ts[vrt.Choose(len(ts))]
@@ -588,7 +678,11 @@ func runC17(c *Ctx) {
 		c.Out.Notes = append(c.Out.Notes, "exported methods not covered by the call table: "+strings.Join(c17Uncovered(types), ", "))
 	}
 	for _, ty := range types {
-		c.Explore(c17Scenario(ty, pb), mc.Options{PreemptBound: pb, NoCache: true})
+		b := pb
+		if ty.pb != 0 {
+			b = ty.pb + c.Pick(0, 1)
+		}
+		c.Explore(c17Scenario(ty, b), mc.Options{PreemptBound: b, NoCache: true})
 	}
 	if c.Thorough() {
 		for _, ty := range types {
